@@ -2,9 +2,10 @@ from pyvc.cbase import Registry
 
 
 def build_registry():
-    from . import externs, expect, spawnbase
+    from . import externs, expect, spawnbase, screen
     reg = Registry()
     externs.register(reg)
     spawnbase.register(reg)
     expect.register(reg)
+    screen.register(reg)
     return reg
